@@ -583,7 +583,7 @@ fn wrong_kind(r: &mut Rng) -> Value {
 }
 
 fn key_for(k: &KeyKind, r: &mut Rng) -> String {
-    const BAD_NUM: &[&str] = &["01", "-3", "1.0", "1e0", "true", "", " 1", "1 ", "+1", "-0", "-", "00", "0x1", "1_0", "१", "1.", ".5", "-01", "12a", "\"1\"", "1\n",
+    const BAD_NUM: &[&str] = &["01", "-3", "1.0", "1e0", "true", "", " 1", "1 ", "+1", "-0", "-", "00", "0x1", "1_0", "१", "1.", ".5", "-01", "12a", "\"1\"", "1\n", "7\u{0}", "7\u{0}8", "7\t", "7,", "170141183460469231731687303715884105728", "340282366920938463463374607431768211455",
         "256", "-129", "65536", "4294967296", "18446744073709551616", "-9223372036854775809", "340282366920938463463374607431768211456",
         "-170141183460469231731687303715884105729", "99999999999999999999999999999999999999999"];
     match k {
